@@ -306,3 +306,39 @@ def replay_dispatch(obligation, model, meta):
                 return {'confirmed': True, 'inputs': {'sparselib': lib, 'call': meth, 'A': trip, 'b': B0[:, 0].tolist()},
                         'observed': 'returned x = %r does not satisfy A x = b' % x.tolist(), 'native_cmd': "Solver('%s').%s(A, b)" % (lib, meth)}
     return {'confirmed': False, 'tried': 6}
+
+
+def wrapper(pid, cls, meth):
+    """The one-line wrappers between SuiteSparseSolver.solve and the library: UMFPACKSolver / KLUSolver ._symbolic(A) = lib.symbolic(A),
+    ._numeric(A, F) = lib.numeric(A, F), ._solve(A, F, N, b) = umfpack.solve(A, N, b) resp. klu.solve(A, F, N, b) -- each argument in
+    the library's position (kvxopt signatures assumed)."""
+    from pyvc.symval import Module
+    lib = 'umfpack' if cls == 'UMFPACKSolver' else 'klu'
+    params = {'_symbolic': ['A'], '_numeric': ['A', 'F'], '_solve': ['A', 'F', 'N', 'b']}[meth]
+    want = {('umfpack', '_symbolic'): ['A'], ('umfpack', '_numeric'): ['A', 'F'], ('umfpack', '_solve'): ['A', 'N', 'b'],
+            ('klu', '_symbolic'): ['A'], ('klu', '_numeric'): ['A', 'F'], ('klu', '_solve'): ['A', 'F', 'N', 'b']}[(lib, meth)]
+    RET = Opaque(fresh('library_result', z3.DeclareSort('Factor')))
+
+    def libcall(ex, st, args, kw, node):
+        ok = not kw and len(args) == len(want) and all(a is st.env[w] for a, w in zip(args, want))
+        ex.oblige(st, 'pre@call:%s.%s(%s)' % (lib, meth[1:], ', '.join(want)), z3.BoolVal(bool(ok)), {})
+        st.ghost['called'] = st.ghost['called'] + 1
+        return RET
+
+    def post(old, new, res):
+        once = new.st.ghost['called'] == 1
+        if meth == '_solve':
+            return z3.BoolVal(bool(once))
+        return z3.BoolVal(bool(once and res is RET))
+    c = Contract('andes/linsolvers/suitesparse.py', '%s.%s' % (cls, meth), pid=pid,
+                 params=dict([('self', TObj())] + [(p, TOpaque('Arg_' + p)) for p in params]), schema={}, ghost_init={'called': 0},
+                 calls={'%s.%s' % (lib, meth[1:]): libcall}, globals_={lib: Module(lib)},
+                 ensures=[('library-called-once-with-the-arguments-in-its-own-order;result-returned', post)], modifies=[])
+    return c
+
+
+def wrappers(pid):
+    return [wrapper(pid, cls, m) for cls in ('UMFPACKSolver', 'KLUSolver') for m in ('_symbolic', '_numeric', '_solve')]
+
+replay_solvers.real_system = True       # real solver objects on real kvxopt matrices: a crash inside repository code is a confirmed failure
+replay_dispatch.real_system = True
